@@ -51,6 +51,10 @@ type Replay struct {
 	RunHash  string         `json:"run_hash,omitempty"`
 	Shrunk   map[string]any `json:"minimisation,omitempty"`
 	Go       string         `json:"go_version"`
+	// Harness identifies the sources of the harness that wrote the file: a
+	// script is a sequence of answers to the generators\' draws and means
+	// something else once the generators change.
+	Harness string `json:"harness,omitempty"`
 }
 
 // Stats is what a batch worker prints.
@@ -513,7 +517,7 @@ func account(st *Stats, hll *core.HLL, e *props.Env, idx uint64, out *props.Outc
 			params[k] = v
 		}
 		st.Violation = &Replay{Property: *fProp, Gate: *fGate, Lock: *fLock, Race: raceEnabled, Thorough: *fThorough, Procs: *fProcs,
-			Seed: *fSeed, Run: idx, Script: values, Params: params, Class: out.Violation.Class, Detail: out.Violation.Detail, Go: runtime.Version()}
+			Seed: *fSeed, Run: idx, Script: values, Params: params, Class: out.Violation.Class, Detail: out.Violation.Detail, Go: runtime.Version(), Harness: os.Getenv("VERIF_HARNESS")}
 		return true
 	}
 	return false
